@@ -483,7 +483,8 @@ def mode_blocked(data):
                 if bad:
                     out["mismatches"].append({"depth": depth, "managers": nm, "mode": mode, "bad": bad})
     # a thread blocked INSIDE a manager's __exit__, with other managers of the same frame still active around it
-    for nouter in (0, 1, 2):
+    for nouter, raising in ((0, False), (1, False), (2, False), (0, True), (1, True), (2, True)):
+        # raising: the with body ends by an exception, so __exit__ is called on the unwinding path
         ev, ready = threading.Event(), threading.Event()
 
         class BlockingExit:
@@ -500,18 +501,25 @@ def mode_blocked(data):
         outers = [CM(k) for k in range(nouter)]
         inner = BlockingExit()
 
+        def body():
+            if raising:
+                raise KeyError("the body fails")
+
         def holder():
-            if nouter == 0:
-                with inner:
-                    pass
-            elif nouter == 1:
-                with outers[0]:
+            try:
+                if nouter == 0:
                     with inner:
-                        pass
-            else:
-                with outers[0], outers[1]:
-                    with inner:
-                        pass
+                        body()
+                elif nouter == 1:
+                    with outers[0]:
+                        with inner:
+                            body()
+                else:
+                    with outers[0], outers[1]:
+                        with inner:
+                            body()
+            except KeyError:
+                pass
         t = threading.Thread(target=holder, daemon=True)
         t.start()
         ready.wait(TIMEOUT)
@@ -528,8 +536,9 @@ def mode_blocked(data):
             got = [(c.obj, bool(c.is_exiting)) for c in hf[0].contexts]
             want = [(m, False) for m in outers] + [(inner, True)]
             if len(got) != len(want) or any(g[0] is not w[0] or g[1] != w[1] for g, w in zip(got, want)):
-                bad.append("thread blocked in __exit__ with %d outer managers: contexts %s, expected the outer managers and then the "
-                           "exiting one with its manager as obj" % (nouter, [(type(o).__name__, e) for o, e in got]))
+                bad.append("thread blocked in __exit__ (%s path) with %d outer managers: contexts %s, expected the outer managers and "
+                           "then the exiting one with its manager as obj" % ("exception" if raising else "normal", nouter,
+                                                                              [(type(o).__name__, e) for o, e in got]))
             names = [f.funcname for f in st.frames]
             if "__exit__" not in names:
                 bad.append("the __exit__ frame is missing: %s" % names)
